@@ -61,7 +61,7 @@ class MicroMatrix(probe.Contract):
         want = P.conj().T @ A @ P
         sc = float(np.linalg.norm(P)) ** 2 * float(np.linalg.norm(A))
         ok = res.shape == want.shape and float(np.max(np.abs(res - want))) <= 1e-9 * max(sc, 1e-300)
-        tags = ['complex'] if (np.iscomplexobj(A) or np.iscomplexobj(P)) else []
+        tags = (['complex'] if (np.iscomplexobj(A) or np.iscomplexobj(P)) else []) + (['within=' + probe.S.apis[0]] if probe.S.apis else [])
         c.check(self.api, 'equals_projected_operator', ok, tags + ['site=%s' % ('first' if i == 0 else 'last' if i + self.width == operator.order else 'inner')] if not ok else (),
                 {'site': i, 'order': operator.order, 'err': float(np.max(np.abs(res - want))) if res.shape == want.shape else None, 'scale': sc,
                  'ranks': list(solution.ranks)}, prop=CURRENT_PROP or self.prop)
